@@ -367,6 +367,9 @@ impl<'g> Entry for Prepared<'g> {
                 Op::Config(CfgG::EntryDims(_)) => {
                     writer.config(self.cfgs[i].as_deref().expect("prepared"))
                 }
+                // names reach the writer borrowed or owned (prefixed / inflected field names
+                // are owned Strings), decided by the case content
+                Op::Value { name, val } if (name.len() + i) % 2 == 1 => writer.value(name.clone(), val),
                 Op::Value { name, val } => writer.value(name.as_str(), val),
                 Op::ErrorReport(_) => self.errs[i].as_ref().expect("prepared").write(writer),
             }
